@@ -426,6 +426,7 @@ def run(ctx):
     c02.check_container_factory(ctx, 2)
     check_container_ids(ctx, 2)
     pool.ob_moves_classified(ctx, 2)
+    pool.ob_own_state(ctx, 2)
     pool.ob_deltas(ctx, 3, amounts=False, conditions=True)
     pool.ob_phases(ctx, 3)
     check_results(ctx, 3)
